@@ -455,6 +455,10 @@ func compareNumberDte(recDte *DtypeEnclosure, qValDte *DtypeEnclosure, op Filter
 			return false, fmt.Errorf("compareNumberDte: unknown unsigned op=%v", op)
 		}
 	case SS_DT_SIGNED_NUM:
+		if qValDte.Dtype == SS_DT_UNSIGNED_NUM && qValDte.SignedVal < 0 {
+			// the literal is above MaxInt64 (its SignedVal has wrapped): every int64 record is smaller
+			return op == NotEquals || op == LessThan || op == LessThanOrEqualTo, nil
+		}
 		switch op {
 		case Equals:
 			return recDte.SignedVal == qValDte.SignedVal, nil
